@@ -74,6 +74,25 @@ def gen(run):
             f = W.riff(W.chunk(b"VP8X", W.vp8x_payload(W.ANIM, w, h)) + W.mk(b"ANIM") +
                        W.chunk(b"ANMF", W.anmf_payload(W.chunk(b"VP8L", W.vp8l_payload(w, h, body)), w=w, h=h)))
         raw.append((W.case_line("cursor", rng.random() < 0.5, f), "webp-lossless-garbage"))
+    # structured lossless streams (valid by construction, each rule violated in turn, boundary distance codes, deep codes):
+    # random bytes almost never get past the first prefix code, these reach the pixel loops and the LZ77 arithmetic
+    from props import _c07_vp8l as G
+    from props import _c19_vp8l as V
+    for i in range(150 if quick else 6000):
+        k = i % 3
+        if k == 0:
+            w, h, body, _ = G.build(rng)
+        elif k == 1:
+            w, h, body, _ = G.build(rng, violate=rng.choice(G.VIOLATIONS))
+        else:
+            w, h, body, _ = V.build_lossless(rng, rng.choice(["plain", "deep", "arbdeep"]))
+        if w > 16384 or h > 16384 or len(body) > 30000:
+            continue
+        if rng.random() < .2 and body:
+            b = bytearray(body)
+            b[rng.randrange(len(b))] ^= 1 << rng.randrange(8)
+            body = bytes(b)
+        raw.append((W.case_line("cursor", False, W.riff(W.chunk(b"VP8L", W.vp8l_payload(w, h, body)))), "webp-lossless-structured"))
     # ANMF frames declaring 2^24 x 2^24 pixels (the container does not bound a frame by the canvas) with lossless ALPH bodies
     big = 2**24
     for body in (W.LL_OK, bytes(rng.randrange(256) for _ in range(40)), b""):
